@@ -672,10 +672,22 @@ func (seqEngine) Gen(prop string, seed uint64, tier string) *Spec {
 				g.nextPat++
 				g.emit(&Op{K: "write", H: id, Off: off, Len: n, Cnt: n, Pat: g.nextPat, How: rng.Intn(3)})
 			}
-			if rng.Chance(0.5) {
+			switch rng.Intn(5) {
+			case 0, 1:
 				g.emit(&Op{K: "remove", H: 0, N: name})
-			} else {
+			case 2:
 				g.emit(&Op{K: "setattr", H: id, Off: uint64(rng.Intn(3)) * 4096})
+			default:
+				// cut most of the file off (the freeing goes to the background), then, while
+				// it may still be pending, write across the new end of file, grow the file
+				// again and read: nothing of the old contents may come back
+				cut := uint64(1+rng.Intn(60))*4096 + uint64(rng.Intn(4096))
+				g.emit(&Op{K: "setattr", H: id, Off: cut})
+				g.nextPat++
+				wl := uint64(300 + rng.Intn(9000))
+				g.emit(&Op{K: "write", H: id, Off: cut - uint64(1+rng.Intn(200)), Len: wl, Cnt: wl, Pat: g.nextPat, How: rng.Intn(3)})
+				g.emit(&Op{K: "setattr", H: id, Off: cut + uint64(20+rng.Intn(100))*4096})
+				g.emit(&Op{K: "read", H: id, Off: cut / 4096 * 4096, Len: 65536})
 			}
 			continue
 		}
